@@ -3,6 +3,7 @@
     [init_state 2 true]: fabrics 1 and 2, PASE session 1, administrator CASE sessions 2, 3). *)
 From Coq Require Import NArith List Bool.
 From RsM Require Import Model.Lifecycle Model.LifecycleSpec.
+(* -- *)
 Import ListNotations.
 Open Scope N_scope.
 
